@@ -317,6 +317,18 @@ theorem reconstruct_prefilled_positions (b : Block)
   | none => simp [hb] at h1
   | some t' => simpa [hb] using h1
 
+/-- a prefilled transaction sits at the index it declares, provided the indexes can be honoured
+(`fits`: ascending, each gap coverable by the remaining short ids — what `PrefilledVerifier`
+establishes; the implication `cbVerify cb = none → fits …` itself is not proved here, it is tied
+by the correspondence run) -/
+theorem reconstruct_prefilled_at_index (b : Block) (hf : fits cb.prefilled cb.shortIds.length 0)
+    (hr : reconstruct h cb received pool src fromPeer = .block b) (idx : Nat) (t : Tx)
+    (hm : (idx, t) ∈ cb.prefilled) : b.txs[idx]? = some t := by
+  have := (layoutGo_pre_at cb.prefilled cb.shortIds 0 hf idx t hm).2
+  exact reconstruct_prefilled_positions h cb received pool src fromPeer b hr idx t (by simpa [layout] using this)
+
+example : fits [(0, (⟨1, 1⟩ : Tx)), (2, ⟨3, 3⟩)] 2 0 := by simp [fits]
+
 /-- with a collision-free transactions root the result cannot be any other body than the one the
 header commits to: never a different block -/
 theorem reconstruct_forge_free (b : Block) (committed : List Tx)
